@@ -310,6 +310,24 @@ package protocol
 //@     invariant s.isClient == old(s.isClient)
 //@     invariant s.downloadBytes == old(s.downloadBytes)
 //@
+//@ // Close at its sequence position (C03): a session is shut down in response to the peer's
+//@ // close request only when every segment the peer sent before it has been received, i.e.
+//@ // the request's sequence number is the next expected one. Ordered transport gives this on
+//@ // TCP; on UDP the request is acted on as soon as it is dispatched (recorded finding D8).
+//@ func (s *Session) inputClose(seg *segment) (err error)
+//@   property C03
+//@   mode int
+//@   partial
+//@   posts_only
+//@   noframe
+//@   may_panic
+//@   requires s != nil && wfSegMeta(seg)
+//@   assert_call Session.Close: old(s.transportProtocol) == common.StreamTransport || old(protoOf(seg)) != 4 || old(payload(seg.metadata, *sessionStruct).seq) == old(s.nextRecv.v)
+//@
+//@ func (s *Session) closeWithError(err error) (r error)
+//@   trusted shutdown sequence coordinating the session's goroutines (schedules are outside the technique); nothing is assumed about its effects
+//@   noframe
+//@
 //@ // Quota (C19): a session is admitted (ok without error) only after every quota of the
 //@ // user's policy has been evaluated against both of the user's counters; it is refused only
 //@ // when the traffic computed for some quota's window exceeds that quota's allowance; a
@@ -641,3 +659,20 @@ package protocol
 //@   property C06
 //@ struct writers_global packetReplayCache = {init}
 //@   property C06
+//@
+//@ // Frame of retransmission (C13, C01): the payload and the fragment number of a segment are
+//@ // written only where segments are built or decoded, never by the output loops that
+//@ // (re)transmit them. The sequence number, session id and acknowledgement fields are also
+//@ // written by runOutputOncePacket, but only in the composite literals of the ack segments it
+//@ // creates itself and at the stamp "das.unAckSeq = s.nextRecv.Load()" (the structural check
+//@ // counts stores into freshly allocated structs, so the sets below include it).
+//@ struct writers segment.payload = {PacketUnderlay.parseDataAckSegment, PacketUnderlay.parseSessionSegment, Session.Write, Session.writeChunk, StreamUnderlay.readDataAckSegment, StreamUnderlay.readSessionSegment}
+//@   property C13 C01
+//@ struct writers dataAckStruct.fragment = {Session.writeChunk, dataAckStruct.Unmarshal}
+//@   property C13 C01
+//@ struct writers dataAckStruct.seq = {Session.runOutputOncePacket, Session.writeChunk, dataAckStruct.Unmarshal}
+//@   property C13 C01
+//@ struct writers dataAckStruct.unAckSeq = {Session.runOutputOncePacket, Session.writeChunk, dataAckStruct.Unmarshal}
+//@   property C13
+//@ struct writers dataAckStruct.payloadLen = {Session.writeChunk, dataAckStruct.Unmarshal}
+//@   property C13 C01
